@@ -350,104 +350,7 @@ def check_loop(ctx, R="C01.loop"):
         ctx.finding(R, wl, "iteration limit", "no `if iterations >= maxIterations: raise` before the increment")
 
 
-def derived_fields(model, ci):
-    """{param -> set(fields)}: fields of instances of ci whose stored value derives from that __init__ parameter,
-    following locals (all their assignments, loop targets) and the super().__init__ chain."""
-    found = model.find_method(ci, "__init__")
-    if found is None:
-        return {}, None
-    owner, fn = found
-    params = [a.arg for a in fn.args.args[1:]] + [a.arg for a in fn.args.kwonlyargs]
-    if fn.args.vararg:
-        params.append(fn.args.vararg.arg)
-    # local closure: local -> set of params it derives from
-    der = {p: {p} for p in params}
-    changed = True
-    while changed:
-        changed = False
-
-        def src(e):
-            out = set()
-            for n in ast.walk(e):
-                if isinstance(n, ast.Name) and n.id in der:
-                    out |= der[n.id]
-            return out
-
-        for n in walk_local(fn):
-            pairs = []
-            if isinstance(n, ast.Assign):
-                for t in n.targets:
-                    if isinstance(t, ast.Tuple) and isinstance(n.value, ast.Tuple) and len(t.elts) == len(n.value.elts):
-                        pairs.extend(zip(t.elts, n.value.elts))
-                    else:
-                        pairs.append((t, n.value))
-            elif isinstance(n, (ast.For, ast.comprehension)):
-                pairs.append((n.target, n.iter))
-            elif isinstance(n, ast.Call) and isinstance(n.func, ast.Attribute) and n.func.attr in ("append", "extend", "add", "update") and isinstance(n.func.value, ast.Name):
-                for a in n.args:
-                    pairs.append((n.func.value, a))
-            for t, v in pairs:
-                s = src(v)
-                for tn in ast.walk(t):
-                    if isinstance(tn, ast.Name) and tn.id not in params:
-                        if not s <= der.get(tn.id, set()):
-                            der.setdefault(tn.id, set()).update(s)
-                            changed = True
-    out = {p: set() for p in params}
-
-    def src(e):
-        o = set()
-        for n in ast.walk(e):
-            if isinstance(n, ast.Name) and n.id in der:
-                o |= der[n.id]
-        return o
-
-    for n in walk_local(fn):
-        if isinstance(n, ast.Assign):
-            pairs = []
-            for t in n.targets:
-                if isinstance(t, ast.Tuple) and isinstance(n.value, ast.Tuple) and len(t.elts) == len(n.value.elts):
-                    pairs.extend(zip(t.elts, n.value.elts))
-                else:
-                    pairs.append((t, n.value))
-            for t, v in pairs:
-                if isinstance(t, ast.Attribute) and isinstance(t.value, ast.Name) and t.value.id == "self":
-                    for p in src(v):
-                        out[p].add(t.attr)
-    # super chain
-    mro = model.mro(ci)
-    idx = mro.index(owner)
-    nxt = None
-    for c in mro[idx + 1 :]:
-        if "__init__" in c.methods:
-            nxt = c
-            break
-    if nxt is not None and nxt.fq != samplable.SAMPLABLE:
-        pmap, _ = derived_fields(model, nxt)
-        pfn = nxt.methods["__init__"]
-        sig = lib.signature(pfn, bound=True)
-        for call in samplable._super_init_calls(fn):
-            i = 0
-            for a in call.args:
-                if isinstance(a, ast.Starred):
-                    targets = sig["pos"][i:] + ([pfn.args.vararg.arg] if pfn.args.vararg else [])
-                    i = len(sig["pos"])
-                    e = a.value
-                elif i < len(sig["pos"]):
-                    targets = [sig["pos"][i]]
-                    i += 1
-                    e = a
-                else:
-                    targets = [pfn.args.vararg.arg] if pfn.args.vararg else []
-                    e = a
-                for p in src(e):
-                    for q in targets:
-                        out[p] |= pmap.get(q, set())
-            for k in call.keywords:
-                if k.arg:
-                    for p in src(k.value):
-                        out[p] |= pmap.get(k.arg, set())
-    return out, fn
+derived_fields = samplable.derived_fields
 
 
 def check_clone(ctx, R="C01.clone"):
